@@ -46,7 +46,7 @@ def run(ctx):
     obligations, discharged, names = core.standard_prelude(ctx, ["ZCV.Props.C16"])
     n_s, n_t = (800, 30) if ctx.thorough() else (90, 16)
     rng = ctx.rng
-    cases = cfgstream.gen_cases(ctx, n_s, n_t, handlers=True, nfaults=(0,))
+    cases = cfgstream.gen_cases(ctx, n_s, n_t, handlers=True, nfaults=(0,), systematic=False)
     cfgstream.evaluate(ctx, cases)
     for c in cases:
         if c.out[0] != "ok":
